@@ -170,7 +170,8 @@ RES = "struct:xandikos.web.ObjectResource"
           params={"self": "obj:xandikos.web.StoreBasedCollection", "old_token": "opt[str]", "new_token": "str"},
           returns="list[tuple[str,opt[struct:xandikos.web.ObjectResource],opt[struct:xandikos.web.ObjectResource]]]",
           yields="tuple[str,opt[struct:xandikos.web.ObjectResource],opt[struct:xandikos.web.ObjectResource]]",
-          modifies=["self.store.ghost_trees"], modifies_on_raise=["self.store.ghost_trees"])
+          modifies=["self.store.ghost_trees"], modifies_on_raise=["self.store.ghost_trees"],
+          inline_calls=["xandikos.web.StoreBasedCollection._get_resource"])
 class Collection_iter_differences_since:
     """C07: one record per member whose etag differs between the two token states, each once,
     nothing else; an unknown token is InvalidToken (never a successful wrong list)."""
